@@ -305,15 +305,32 @@ func RunRandPlonk(p *Prog, r *Report) {
 		out := map[*ssa.Function]int{}
 		for _, fn := range p.FuncsMatching(pat) {
 			n := 0
-			for _, f := range funcsWithClosures(fn) {
-				for _, b := range f.Blocks {
-					for _, ins := range b.Instrs {
-						if c, ok := ins.(*ssa.Call); ok && pred(c) {
-							n++
+			seen := map[*ssa.Function]bool{}
+			var visit func(g *ssa.Function, d int)
+			visit = func(g *ssa.Function, d int) {
+				if seen[g] || d > 2 {
+					return
+				}
+				seen[g] = true
+				for _, f := range funcsWithClosures(g) {
+					for _, b := range f.Blocks {
+						for _, ins := range b.Instrs {
+							c, ok := ins.(*ssa.Call)
+							if !ok {
+								continue
+							}
+							if pred(c) {
+								n++
+							}
+							// the step may have been split into same-package helpers
+							if cal := c.Call.StaticCallee(); cal != nil && cal.Blocks != nil && FuncPkg(cal) != nil && FuncPkg(fn) != nil && FuncPkg(cal).Path() == FuncPkg(fn).Path() {
+								visit(cal, d+1)
+							}
 						}
 					}
 				}
 			}
+			visit(fn, 0)
 			out[fn] = n
 		}
 		return out
